@@ -954,6 +954,12 @@ func (vc *VC) runDefers(fr *Frame, st *State) {
 	for i := len(fr.defers) - 1; i >= 0; i-- {
 		d := fr.defers[i]
 		if vc.isNoopCall(&d.instr.Call) {
+			// a deferred Unlock still ends the critical section this function records
+			if vc.trackLocks {
+				if f := d.instr.Call.StaticCallee(); f != nil && len(d.instr.Call.Args) > 0 {
+					vc.lockRecord(st, f.String(), []Term{vc.val(fr, d.instr.Call.Args[0])})
+				}
+			}
 			continue
 		}
 		// conditional execution of the deferred call
